@@ -113,6 +113,14 @@ def plain_pool(E, shape, L=1, tag="", sparse=False):
     return pool
 
 
+def concrete_pool(E, lrus, tag="c"):
+    """pool of fully concrete LRUs given as lists of str stems (UTF-8 encoded)"""
+    pool = []
+    for i, stems in enumerate(lrus):
+        pool.append(PL([E.const(x.encode("utf-8")) for x in stems], "%s%d" % (tag, i)))
+    return pool
+
+
 def distinct(E, pool):
     for i in range(len(pool)):
         for j in range(i):
